@@ -1,9 +1,13 @@
-"""C17 — model-selection strategies (ABTest / Latest / Explicit) vs lean/ForML/Model/Strategy.lean."""
+"""C17 — model-selection strategies (ABTest / Latest / Explicit) vs lean/ForML/Model/Strategy*.lean."""
 from __future__ import annotations
 
 import atexit
+import datetime
 import fractions
 import itertools
+import multiprocessing
+import os
+import pathlib
 import shutil
 import tempfile
 import threading
@@ -17,6 +21,13 @@ F = fractions.Fraction
 EPS = F(1, 10**9)  # 'within one request' is inclusive; float representation noise of the targets
 _STAGING = tempfile.mkdtemp(prefix='verif-c17-')
 atexit.register(shutil.rmtree, _STAGING, ignore_errors=True)
+
+VERSIONS = ['0.1.dev1', '0.1', '0.2.dev3', '0.2', '0.10', '1.0rc1', '1.0', '1.0.post1', '2']  # ascending PEP 440
+PROJECT = 'p'
+REFRESH = 0.02  # seconds: the refresh interval every history is driven with
+
+SIG_F1 = 'abtest-lower-bound-k>=3-within-k-1'
+SIG_F2 = 'latest-stale-configured-release-empty-at-first-refresh'
 
 
 def _registry_double():
@@ -63,43 +74,297 @@ def _registry_double():
 
 
 def _ident(instance) -> tuple:
+    """What a runner would be serving with this instance: resolves (and thereby pins) the generation key."""
     gen = instance._generation  # pylint: disable=protected-access
     return str(gen.release.project.key), str(gen.release.key), int(gen.key)
 
 
+def _errkind(exc: BaseException):
+    from forml.io import asset
+
+    if isinstance(exc, asset.Level.Listing.Empty):
+        return ['err', 'empty']
+    if isinstance(exc, asset.Level.Invalid):
+        return ['err', 'invalid']
+    return ['err', type(exc).__name__]
+
+
+# ---- documented ABTest normalisation (spec side, exact) ----------------------------------------------------
+def doc_shares(values: list) -> list[F]:
+    """Normalised target share per variant *in declaration order* as the ABTest documentation states it: an omitted
+    target is the complement to 1 shared by the omitted ones when the given ones sum below 1, else the mean of the
+    given ones; shares = targets / their sum.  `values`: Fraction or None per variant."""
+    given = [v for v in values if v is not None]
+    missing = len(values) - len(given)
+    if missing:
+        explicit = sum(given, F(0))
+        implicit = (1 - explicit) / missing if explicit < 1 else explicit / len(given)
+        values = [implicit if v is None else v for v in values]
+    total = sum(values, F(0))
+    return [v / total for v in values]
+
+
+def spec_latest(rels, cfg):
+    """Spec written from the property text: newest generation of the highest release that has any (or of the
+    configured one); None when there is none."""
+    if cfg is not None:
+        gens = dict((r, gs) for r, gs in rels).get(cfg)
+        return [cfg, max(gens)] if gens else None
+    having = [(r, gs) for r, gs in rels if gs]
+    if not having:
+        return None
+    r, gs = max(having)
+    return [r, max(gs)]
+
+
+# ---- driving `Latest` / `Explicit` over a registry history on a real posix registry (worker processes) --------
+class _Canary:
+    """A thread of the same shape as `Latest._refresh` (list a posix registry, sleep(interval), in a loop): how many
+    rounds *it* got to run is the yardstick for how long the harness waits for the refresher (tolerates CPU and
+    file-system load: whatever holds the refresher up holds this thread up as well)."""
+
+    def __init__(self, interval: float):
+        from forml.provider.registry.filesystem import posix
+
+        self.count = 0
+        self._interval = interval
+        root = pathlib.Path(tempfile.mkdtemp(prefix='canary-', dir=_STAGING))
+        (root / PROJECT / '1' / 'package.4ml').mkdir(parents=True)
+        (root / PROJECT / '1' / '1').mkdir()
+        (root / PROJECT / '1' / '1' / 'tag.toml').write_text('')
+        self._registry = posix.Registry(root)
+        threading.Thread(target=self._loop, daemon=True).start()
+
+    def _loop(self):
+        while True:
+            try:
+                for release in self._registry.releases(PROJECT):
+                    list(self._registry.generations(PROJECT, release))
+            except Exception:  # pylint: disable=broad-except
+                pass
+            time.sleep(self._interval)
+            self.count += 1
+
+    def wait(self, iterations: int, hard: float = 20.0) -> None:
+        start, t0 = self.count, time.monotonic()
+        while self.count - start < iterations and time.monotonic() - t0 < hard:
+            time.sleep(self._interval / 2)
+
+
+_CANARY: typing.Optional[_Canary] = None
+
+
+def _canary() -> _Canary:
+    global _CANARY  # pylint: disable=global-statement
+    if _CANARY is None:
+        _CANARY = _Canary(REFRESH)
+    return _CANARY
+
+
+PATIENCE = {'full': (40, 1.5), 'short': (12, 0.3)}  # (canary iterations, seconds) both to be exceeded
+HARD_TIMEOUT = 30.0
+
+
+def apply_registry_op(rels: list, op) -> None:
+    """`rels`: [[release, [generations]]] kept ascending; mirrors the registry side of a history."""
+    kind, r = op[0], op[1]
+    entry = next((e for e in rels if e[0] == r), None)
+    if entry is None:
+        entry = [r, []]
+        rels.append(entry)
+        rels.sort()
+    if kind == 'commit':
+        entry[1].append(entry[1][-1] + 1 if entry[1] else 1)
+
+
+def f2_shaped(cfg, rels0, ops) -> bool:
+    """The configured release has no generation when the selector is first used (-> finding C17-F2)."""
+    if cfg is None:
+        return False
+    rels = [[r, list(gs)] for r, gs in rels0]
+    for op in ops:
+        if isinstance(op, (list, tuple)) and op[0] in ('publish', 'commit'):
+            apply_registry_op(rels, op)
+        elif isinstance(op, (list, tuple)) and op[0] == 'select':
+            return not dict((r, gs) for r, gs in rels).get(cfg)
+    return False
+
+
+def drive_history(job: dict) -> dict:
+    """Run one history on the real code.  job: kind ('latest'|'explicit'), cfg, rels0, ops, expect (model observations,
+    optional), patience.  Returns observations per op and the waits."""
+    from forml import application
+    from forml.io import asset
+    from forml.provider.registry.filesystem import posix
+
+    canary = _canary()
+    root = pathlib.Path(tempfile.mkdtemp(prefix='hist-', dir=_STAGING))
+    registry = posix.Registry(root / 'registry')
+    directory = asset.Directory(registry)
+    rels = []
+    waits = {'polls': 0, 'max_wait_s': 0.0, 'patience_exhausted': 0, 'hard_timeouts': 0}
+
+    def publish(r: int) -> None:
+        (root / 'registry' / PROJECT / VERSIONS[r] / 'package.4ml').mkdir(parents=True, exist_ok=True)
+
+    def commit(r: int, g: int) -> None:
+        tag = asset.Tag(training=asset.Tag.Training(datetime.datetime(2024, 1, 1) + datetime.timedelta(days=g), None))
+        registry.close(PROJECT, asset.Release.Key(VERSIONS[r]), asset.Generation.Key(g), tag)
+
+    def registry_op(op) -> None:
+        before = {e[0]: len(e[1]) for e in rels}
+        apply_registry_op(rels, op)
+        for r, gs in rels:
+            if r not in before:
+                publish(r)
+            for g in gs[before.get(r, 0):]:
+                commit(r, g)
+
+    (root / 'registry' / PROJECT).mkdir(parents=True)
+    for r, gs in job['rels0']:
+        registry_op(['publish', r])
+        for _ in gs:
+            registry_op(['commit', r])
+    assert [[r, list(gs)] for r, gs in job['rels0']] == rels, (job['rels0'], rels)
+
+    cfg = job['cfg']
+    if job['kind'] == 'latest':
+        strategy = application.Latest(PROJECT, None if cfg is None else VERSIONS[cfg], refresh=REFRESH)
+    else:
+        strategy = application.Explicit(PROJECT, VERSIONS[cfg[0]], cfg[1])
+    expect = job.get('expect')
+    need_iter, need_s = PATIENCE[job.get('patience', 'full')]
+    shaped = job['kind'] == 'latest' and f2_shaped(cfg, job['rels0'], job['ops'])
+
+    selected = [False]  # has any select call returned an instance (cache filled, refresher started)
+
+    def sample(use: bool):
+        try:
+            inst = strategy.select(directory, None, None)
+        except Exception as exc:  # pylint: disable=broad-except
+            return _errkind(exc)
+        selected[0] = True
+        if not use:
+            return ['picked']
+        try:
+            _, rel, gen = _ident(inst)
+        except Exception as exc:  # pylint: disable=broad-except
+            return _errkind(exc)
+        return ['served', VERSIONS.index(rel), gen]
+
+    obs = []
+    dirty = False  # registry changed since the refresher was last given time
+    filled = False
+    try:
+        for i, op in enumerate(job['ops']):
+            if op == 'tick':
+                if dirty and job['kind'] == 'latest':
+                    canary.wait(2)
+                    dirty = False
+                obs.append('-')
+            elif op[0] in ('publish', 'commit'):
+                registry_op(op)
+                dirty = True
+                obs.append('-')
+            elif op == 'select' or op[0] == 'select':
+                use = True if op == 'select' else bool(op[1])
+                spec = spec_latest(rels, cfg) if job['kind'] == 'latest' else None
+                accept = []
+                if expect is not None:
+                    accept.extend(e if use else e[:1] for e in expect[i] if e != '-')
+                if use and spec is not None:
+                    accept.append(['served'] + spec)
+                t0, c0 = time.monotonic(), canary.count
+                while True:
+                    got = sample(use)
+                    elapsed = time.monotonic() - t0
+                    if not use or job['kind'] != 'latest' or got in accept or not accept:
+                        break
+                    if canary.count - c0 >= need_iter and elapsed >= need_s:
+                        waits['patience_exhausted'] += 1
+                        break
+                    if elapsed >= HARD_TIMEOUT:
+                        waits['hard_timeouts'] += 1
+                        got = ['timeout', got]
+                        break
+                    time.sleep(REFRESH / 2)
+                waits['polls'] += 1
+                waits['max_wait_s'] = max(waits['max_wait_s'], round(elapsed, 3))
+                obs.append(got)
+                if not filled and selected[0] and job['kind'] == 'latest':
+                    filled = True
+                    if shaped:
+                        canary.wait(10)  # the refresher's first round meets the empty release before anything else happens
+            else:
+                raise ValueError(f'bad op {op!r}')
+    finally:
+        shutil.rmtree(root, ignore_errors=True)  # the refresher of this history ends on its next round
+    return {'obs': obs, 'waits': waits, 'final': [[r, list(gs)] for r, gs in rels], 'patience': [need_iter, need_s]}
+
+
+def _fnorm(x: float) -> list[int]:
+    """binary64 in (0, 1] as [mantissa, negated exponent] with 2^52 <= mantissa < 2^53."""
+    m, d = x.as_integer_ratio()
+    e = d.bit_length() - 1
+    assert d == 1 << e
+    while m < 1 << 52:
+        m, e = m * 2, e + 1
+    assert m < 1 << 53
+    return [m, e]
+
+
 class C17(fw.Check):
     ID = 'C17'
-    LEAN_MODULES = ['ForML.Props.C17']
+    LEAN_MODULES = ['ForML.Lemmas.C17Float', 'ForML.Lemmas.C17Latest', 'ForML.Lemmas.C17LatestInv', 'ForML.Lemmas.C17LatestFresh',
+                    'ForML.Lemmas.C17Explicit', 'ForML.Props.C17']
     DRIVER = 'drv_c17'
-    RULE = ('ABTest: variant sets of 2..6 with integer / dyadic-float / omitted targets (structured: all-explicit, '
-            'complement rule, mean rule, ties) x request counts n (every prefix of the selection sequence is compared); '
-            'a case is distinct by (targets, n) and non-trivial when at least two variants get selected. '
-            'Latest: registries of 1..5 releases with 0..3 generations each incl. empty ones, configured / unconfigured '
-            'release, generations appearing between requests; Explicit: constant.  Oracle on the real code: never fails, '
-            'count < share*n+1, count > share*n-1 (k=2) resp. > share*n-(k-1) (k>=3, the envelope of the known finding).')
+    RULE = ('ABTest: variant sets of 2..6 with integer / dyadic-float / omitted targets (omitted ones in every position; '
+            'all-explicit, complement rule, mean rule, ties) x request counts n (every prefix of the selection sequence is '
+            'compared with the exact model and with the binary64 model, slot targets bit for bit); a case is distinct by '
+            '(targets, n) and non-trivial when at least two variants get selected; arbitrary float targets with omitted '
+            'ones: oracle only. Oracle on the real select sequence against the *documented* normalisation in declaration '
+            'order: never fails, count < share*n+1, count > share*n-1 (k=2) resp. > share*n-(k-1) (k>=3, envelope of C17-F1). '
+            'Latest: static registries of 1..5 releases with 0..3 generations each incl. empty ones, configured/unconfigured; '
+            'histories publish/commit/tick/select(use|no use) over a real posix registry with refresh=0.02s, configured '
+            '(published, empty, unpublished) / unconfigured release x commits to the served, to higher and to other '
+            'releases x instance used before/after the commit; Explicit: histories, constant; Instance ==/hash pairs. '
+            'binary64 division model vs CPython on random, boundary and tie quotients.')
     TRUSTED = [
-        'IEEE-754: the model is exact (cross-multiplied naturals); float targets in the correspondence are dyadic or '
-        'integers so that count/total < target evaluates identically in floats (|c/n - t| >= 1/(n*2^k))',
-        'thread timing of Latest._refresh (sampled with a deadline, not modelled)',
+        'CPython int/int and float/float division = IEEE-754 binary64 round-to-nearest-even as defined in '
+        'Model/StrategyFloat.lean `fdiv` (compared on every run: random, boundary and tie quotients, and every slot target '
+        'of the integer/dyadic stream bit for bit); float sums/complements of the explored integer/dyadic targets are exact',
+        'arbitrary (non-dyadic) float targets: only the share-bound oracle, not the exact model',
+        'thread scheduling of Latest._refresh: the harness waits for the refresher as long as a thread of the same '
+        'shape needs for 40 rounds (>= 1.5 s); hard time-outs are reported as data (evidence), never as violations',
+        'one registry per selector (Latest._cache is keyed by registry; a refresher that died is not restarted for a '
+        'second registry); registries only grow (no deletion of releases/generations)',
     ]
-    ASSUMPTIONS = ['registry listings are sorted and duplicate-free (C18)',
-                   'float comparison count/total < target agrees with the exact rational one on the explored weights']
+    ASSUMPTIONS = ['registry listings are duplicate-free and sorted by Level.Listing (C18)',
+                   'n * (sum of integer weights) < 2^52 for the float/rational agreement theorem (C17_float_agrees)']
+
+    def __init__(self, *a, **kw):
+        super().__init__(*a, **kw)
+        self._pool = None
+        self._full_exhausted = 0
+        self.extra['latest_refresh_waits'] = {'histories': 0, 'polls': 0, 'max_wait_s': 0.0, 'patience_exhausted': 0,
+                                              'hard_timeouts': 0}
 
     # ---- ABTest ------------------------------------------------------------------------------
     def _abtest_cases(self):
         rng = self.rng
         cases = []
-        # corpus: the known k=3 witness and tie / complement / mean shapes first
+        # corpus: the known k=3 witness and tie / complement / mean shapes first (omitted targets in every position)
         corpus = [
             ([5, 12, 5], 1), ([9, 1], 1), ([1, 1], 1), ([1, 1, 1], 1), ([3, None, None], 1), ([1, None, None], 4),
             ([2, None], 4), ([None, None], 1), ([None, None, None], 1), ([1, 2, None], 8), ([7, 1, 1, 1], 1),
-            ([1, 2, 3, 4, 5, 6], 1), ([5, None, 3], 8), ([8, None], 8), ([9, None], 8),
+            ([1, 2, 3, 4, 5, 6], 1), ([5, None, 3], 8), ([8, None], 8), ([9, None], 8), ([None, 7], 8), ([None, 3], 1),
+            ([1, None, 4], 8), ([None, None, 1], 4), ([None, 6, None, 1], 8), ([None, 5], 1), ([None, 1, 2], 1),
         ]
         cases.extend(corpus)
         nrand = self.n(150, 1500)
         for _ in range(nrand):
             k = rng.choice([2, 2, 3, 3, 4, 5, 6])
-            style = rng.choice(['int', 'int', 'dyadic', 'mixed-none', 'ties'])
+            style = rng.choice(['int', 'int', 'dyadic', 'mixed-none', 'mixed-none', 'ties'])
             if style == 'int':
                 ts, d = [rng.randint(1, 12) for _ in range(k)], 1
             elif style == 'ties':
@@ -138,29 +403,38 @@ class C17(fw.Check):
         den = implicit.denominator
         return den & (den - 1) == 0 and implicit > 0
 
-    def _run_abtest(self, ts, d, n):
-        """Real ABTest: returns (order of variant indices, picks as variant indices) or ('error', cls)."""
+    @staticmethod
+    def _build_abtest(values):
+        """Real ABTest over generations 1..k of one release; values: python targets (int/float/None)."""
         from forml import application
         from forml.io import asset
 
         Double = _registry_double()
-        gens = list(range(1, len(ts) + 1))
-        directory = asset.Directory(Double({'p': {'1': gens}}))
+        directory = asset.Directory(Double({'p': {'1': list(range(1, len(values) + 1))}}))
+        builder = application.ABTest.compare('p', '1', 1, values[0])
+        for i, t in enumerate(values[1:-1], start=2):
+            builder = builder.over(i, target=t)
+        return builder.against(len(values), target=values[-1]), directory
 
-        def pyval(t):
-            if t is None:
-                return None
-            return t if d == 1 else t / d  # exact: d is a power of two
+    def _run_abtest(self, ts, d, n):
+        """Real ABTest: returns ((slot order as variant indices, picks as variant indices), slot targets) or
+        (('error', cls), None) when the constructor raises."""
+        values = [None if t is None else (t if d == 1 else t / d) for t in ts]  # exact: d is a power of two
+        return self._run_abtest_values(values, n)
 
+    def _run_abtest_values(self, values, n):
         try:
-            builder = application.ABTest.compare('p', '1', 1, pyval(ts[0]))
-            for i, t in enumerate(ts[1:-1], start=2):
-                builder = builder.over(i, target=pyval(t))
-            ab = builder.against(len(ts), target=pyval(ts[-1]))
+            ab, directory = self._build_abtest(values)
         except Exception as e:  # pylint: disable=broad-except
             return ('error', type(e).__name__), None
-        order = [int(s.variant.generation) - 1 for s in ab._slots]  # pylint: disable=protected-access
-        targets = [F(s.target) for s in ab._slots]  # pylint: disable=protected-access
+        slots = getattr(ab, '_slots', None)
+        order = targets = None
+        if slots is not None:
+            try:
+                order = [int(s.variant.generation) - 1 for s in slots]
+                targets = [float(s.target) for s in slots]
+            except Exception:  # pylint: disable=broad-except
+                order = targets = None
         picks = []
         for _ in range(n):
             try:
@@ -172,110 +446,167 @@ class C17(fw.Check):
         return (order, picks), targets
 
     @staticmethod
-    def _oracle_abtest(order, picks, targets):
-        """Bounds on the real selection sequence, evaluated with exact fractions on the *float* targets the
-        implementation computed. Returns list of (what, signature, detail)."""
-        out = []
-        k = len(order)
-        counts = {v: 0 for v in order}
-        share = dict(zip(order, targets))
+    def _oracle_abtest(shares, picks):
+        """The property on the real selection sequence: `shares` = documented normalised share per variant (declaration
+        order, exact), `picks` = selected variant per request.  Returns [(what, signature, detail)], first failure only."""
+        k = len(shares)
+        counts = [0] * k
         for n, p in enumerate(picks, start=1):
             if isinstance(p, tuple):
-                out.append((f'ABTest.select raised {p[1]} at request {n}', 'abtest-select-fails', {'n': n}))
-                return out
+                return [(f'ABTest.select raised {p[1]} at request {n}', 'abtest-select-fails', {'n': n})]
             counts[p] += 1
-            for v in order:
-                dev = counts[v] - share[v] * n
+            for v in range(k):
+                dev = counts[v] - shares[v] * n
                 if dev > 1 + EPS:
-                    out.append((f'variant {v} is {float(dev):.3f} requests ahead of its share at n={n}',
-                                'abtest-upper-bound', {'n': n, 'variant': v}))
-                    return out
+                    return [(f'variant #{v} (target share {float(shares[v]):.4f}) was selected {counts[v]} times in {n} '
+                             f'requests: {float(dev):.3f} ahead of its share', 'abtest-upper-bound',
+                             {'n': n, 'variant': v, 'count': counts[v], 'share': str(shares[v])})]
                 if dev < -1 - EPS:
-                    if k >= 3 and dev > -(k - 1):
-                        out.append((f'variant {v} is {float(-dev):.3f} requests behind its share at n={n} (k={k})',
-                                    'abtest-lower-bound-k>=3-within-k-1', {'n': n, 'variant': v, 'k': k}))
-                    else:
-                        out.append((f'variant {v} is {float(-dev):.3f} requests behind its share at n={n} (k={k})',
-                                    'abtest-lower-bound', {'n': n, 'variant': v, 'k': k}))
-                    return out
-        return out
+                    sig = SIG_F1 if k >= 3 and dev > -(k - 1) else 'abtest-lower-bound'
+                    return [(f'variant #{v} (target share {float(shares[v]):.4f}) was selected {counts[v]} times in {n} '
+                             f'requests: {float(-dev):.3f} behind its share (k={k})', sig,
+                             {'n': n, 'variant': v, 'k': k, 'count': counts[v], 'share': str(shares[v])})]
+        return []
+
+    def _check_values(self, values, n):
+        """Oracle on one variant set (python target values): [(what, sig, detail)]; [] also when not constructible."""
+        res, _ = self._run_abtest_values(values, n)
+        if res[0] == 'error':
+            return []
+        shares = doc_shares([None if v is None else F(v) for v in values])
+        return self._oracle_abtest(shares, res[1])
+
+    def _shrink_abtest(self, values, n, sig):
+        """Smaller variant set / targets / request count with a violation of the same signature."""
+        best = (list(values), n)
+        budget = 60
+
+        def fails(vals, nn):
+            nonlocal budget
+            if budget <= 0 or len(vals) < 2:
+                return None
+            budget -= 1
+            try:
+                out = self._check_values(vals, nn)
+            except Exception:  # pylint: disable=broad-except
+                return None
+            return out[0] if out and out[0][1] == sig else None
+
+        improved = True
+        while improved and budget > 0:
+            improved = False
+            vals, nn = best
+            cands = [vals[:i] + vals[i + 1:] for i in range(len(vals))] if len(vals) > 2 else []
+            for i, v in enumerate(vals):
+                for simpler in (None, 1, 2, 0.5, 0.25):
+                    if v is not None and simpler != v and (simpler is None or isinstance(v, float) == isinstance(simpler, float)):
+                        cands.append(vals[:i] + [simpler] + vals[i + 1:])
+            for cand in cands:
+                hit = fails(cand, nn)
+                if hit:
+                    best = (cand, hit[2]['n'])
+                    improved = True
+                    break
+        return best
+
+    def _report_abtest(self, kind, ts, d, values, n, found):
+        for what, sig, detail in found:
+            witness = {'kind': kind, 'targets': ts, 'n': detail['n']}
+            if kind == 'abtest':
+                witness['den'] = d
+            if sig not in (SIG_F1,) and not any(v.signature == sig for v in self.violations):
+                small, sn = self._shrink_abtest(values, detail['n'], sig)
+                again = self._check_values(small, sn)
+                if again and again[0][1] == sig:
+                    what, _, detail = again[0]
+                    witness = {'kind': 'abtest-float', 'targets': small, 'n': detail['n'], 'variant': detail.get('variant'),
+                               'shrunk_from': {'targets': ts, 'den': d}}
+            self.violate(what, witness, sig, detail)
 
     def _abtest(self):
         cases = self._abtest_cases()
         nreq = self.n(120, 300)
         lines = [sexp.dumps(['abtest', d, ts, nreq]) for ts, d in cases]
-        answers = self.model(lines)
-        for (ts, d), ans in zip(cases, answers):
+        answers = [sexp.num(sexp.loads(a)) for a in self.model(lines)]
+        # binary64 model of the same runs: slot targets and the eligibility sequence in float arithmetic
+        flines = [sexp.dumps(['ftrace', [m[1][v] for v in m[2]], nreq]) for m in answers if m[0] == 'ok']
+        fanswers = iter(sexp.num(sexp.loads(a)) for a in self.model(flines))
+        for (ts, d), m in zip(cases, answers):
+            fm = next(fanswers) if m[0] == 'ok' else None
             res, targets = self._run_abtest(ts, d, nreq)
-            m = sexp.num(sexp.loads(ans))
             k = len(ts)
             shape = f'abtest k={k} ' + ('none' if any(t is None for t in ts) else 'dyadic' if d > 1 else 'int')
-            if targets is None:
+            if res[0] == 'error':
                 self.case(('ab', tuple(ts), d), shape + ' ctor-error', nontrivial=False)
                 self.diverge('ABTest constructor raised', {'targets': ts, 'den': d}, res, m)
                 continue
             order, picks = res
             self.case(('ab', tuple(ts), d, nreq), shape, nontrivial=len(set(map(str, picks))) > 1,
                       sample={'targets': ts, 'den': d, 'slot_order': order, 'first_picks': picks[:12]})
-            if m[0] != 'ok' or m[2] != order or m[3] != picks:
-                # first differing prefix
+            if m[0] != 'ok' or (order is not None and m[2] != order) or m[3] != picks:
                 mp = m[3] if m[0] == 'ok' else None
                 idx = next((i for i, (a, b) in enumerate(zip(picks, mp or [])) if a != b), None)
                 self.diverge('ABTest selection sequence', {'targets': ts, 'den': d, 'n': nreq, 'first_diff_at': idx},
                              {'order': order, 'picks': picks[: (idx or 0) + 3]},
                              {'order': m[2] if m[0] == 'ok' else m, 'picks': (mp or [])[: (idx or 0) + 3]})
-            for what, sig, detail in self._oracle_abtest(order, picks, targets):
-                self.violate(what, {'kind': 'abtest', 'targets': ts, 'den': d, 'n': detail['n']}, sig, detail)
-        # arbitrary (non-dyadic) float targets: oracle only (the exact model is not comparable bit for bit)
-        for _ in range(self.n(60, 600)):
+            elif fm is not None:
+                # float tie: the binary64 model selects the same sequence and computes the same slot targets
+                fpicks = [m[2][i] for i in fm[2]] if fm[0] == 'ok' else None
+                if fpicks != picks:
+                    self.diverge('ABTest selection sequence (binary64 model)', {'targets': ts, 'den': d, 'n': nreq},
+                                 picks[:20], (fpicks or fm)[:20])
+                if targets is not None and fm[0] == 'ok' and [_fnorm(t) for t in targets] != fm[1]:
+                    self.diverge('ABTest slot targets (binary64)', {'targets': ts, 'den': d},
+                                 [_fnorm(t) for t in targets], fm[1])
+            values = [None if t is None else (t if d == 1 else t / d) for t in ts]
+            shares = doc_shares([None if t is None else F(t, d) for t in ts])
+            self._report_abtest('abtest', ts, d, values, nreq, self._oracle_abtest(shares, picks))
+        # arbitrary (non-dyadic) float targets, omitted ones in any position: oracle only (the exact model is not
+        # comparable bit for bit)
+        for _ in range(self.n(80, 800)):
             k = self.rng.choice([2, 2, 3, 4, 5, 6])
             ts = [round(self.rng.uniform(0.01, 0.99), self.rng.choice([1, 2, 3])) or 0.5 for _ in range(k)]
-            res, targets = self._run_abtest_float(ts, nreq)
-            self.case(('abf', tuple(ts), nreq), f'abtest-float k={k}', nontrivial=True)
-            for what, sig, detail in self._oracle_abtest(res[0], res[1], targets):
-                self.violate(what, {'kind': 'abtest-float', 'targets': ts, 'n': detail['n']}, sig, detail)
+            if self.rng.random() < 0.5:
+                for i in self.rng.sample(range(k), self.rng.randint(1, k - 1)):
+                    ts[i] = None
+                explicit = sum(F(t) for t in ts if t is not None)
+                if abs(explicit - 1) < F(1, 1000):  # the float sum must be on the same side of 1 as the exact one
+                    continue
+            self.case(('abf', tuple(ts), nreq), f'abtest-float k={k}' + (' none' if None in ts else ''), nontrivial=True)
+            self._report_abtest('abtest-float', ts, None, ts, nreq, self._check_values(ts, nreq))
 
-    def _run_abtest_float(self, ts, n):
-        from forml import application
-        from forml.io import asset
-
-        Double = _registry_double()
-        directory = asset.Directory(Double({'p': {'1': list(range(1, len(ts) + 1))}}))
-        builder = application.ABTest.compare('p', '1', 1, ts[0])
-        for i, t in enumerate(ts[1:-1], start=2):
-            builder = builder.over(i, target=t)
-        ab = builder.against(len(ts), target=ts[-1])
-        order = [int(s.variant.generation) - 1 for s in ab._slots]  # pylint: disable=protected-access
-        targets = [F(s.target) for s in ab._slots]  # pylint: disable=protected-access
-        picks = []
-        for _ in range(n):
-            try:
-                picks.append(_ident(ab.select(directory, None, None))[2] - 1)
-            except Exception as e:  # pylint: disable=broad-except
-                picks.append(('error', type(e).__name__))
-                break
-        return (order, picks), targets
+    def _fdiv(self):
+        """The binary64 division of the model against CPython's `/` (ties, boundaries, random magnitudes)."""
+        rng = self.rng
+        pairs = [(1, 1), (1, 2), (1, 3), (2, 3), (9, 10), (1, 10), (1, 2**53), (1, 2**53 + 1), (2**53 - 1, 2**53),
+                 (2**53 + 1, 2**54), (2**53 + 3, 2**54), (2**54 - 1, 2**54), (2**54 - 2, 2**54 - 1), (2**60 + 1, 2**61 + 7)]
+        for k in range(1, 30):  # exact ties: odd numerators over 2^(53+j) scaled
+            pairs.append(((1 << 53) + 2 * k + 1, 1 << (54 + k % 5)))
+        for _ in range(self.n(400, 4000)):
+            bits = rng.choice([4, 8, 10, 16, 30, 52, 53, 54, 60, 70])
+            b = rng.randint(1, 1 << bits)
+            a = rng.randint(1, b)
+            pairs.append((a, b))
+        for n in range(1, self.n(40, 130)):  # every count/total of the explored request range
+            for c in range(1, n + 1):
+                pairs.append((c, n))
+        answers = self.model([sexp.dumps(['fdiv', a, b]) for a, b in pairs])
+        bad = None
+        for (a, b), ans in zip(pairs, answers):
+            if sexp.num(sexp.loads(ans)) != _fnorm(a / b):
+                bad = bad or (a, b, ans, _fnorm(a / b))
+        self.case(('fdiv', len(pairs)), 'binary64 division pairs', nontrivial=True)
+        self.extra['fdiv_pairs_compared'] = len(pairs)
+        if bad:
+            self.diverge('binary64 division', {'a': bad[0], 'b': bad[1]}, bad[3], bad[2])
 
     # ---- Latest / Explicit -------------------------------------------------------------------
-    @staticmethod
-    def _spec_latest(rels: list[tuple[int, list[int]]], cfg: typing.Optional[int]):
-        """Spec written from the property text: newest generation of the highest release that has any
-        (or of the configured one)."""
-        if cfg is not None:
-            gens = dict(rels).get(cfg)
-            return (cfg, max(gens)) if gens else None
-        having = [(r, gs) for r, gs in rels if gs]
-        if not having:
-            return None
-        r, gs = max(having)
-        return r, max(gs)
-
-    def _latest(self):
+    def _latest_static(self):
         from forml import application
         from forml.io import asset
 
         Double = _registry_double()
-        versions = ['0.1.dev1', '0.1', '0.2.dev3', '0.2', '0.10', '1.0rc1', '1.0', '1.0.post1', '2']  # ascending PEP 440
+        versions = VERSIONS
         cases = []
         for _ in range(self.n(120, 1200)):
             nrel = self.rng.randint(1, 5)
@@ -303,7 +634,8 @@ class C17(fw.Check):
                 impl = ('error', type(e).__name__)
             m = sexp.num(sexp.loads(ans))
             mod = None if m == 'none' else tuple(m[1])
-            spec = self._spec_latest(rels, cfg)
+            spec = spec_latest(rels, cfg)
+            spec = None if spec is None else tuple(spec)
             self.case(('latest', tuple((r, tuple(g)) for r, g in rels), cfg),
                       f'latest rel={len(rels)} cfg={"y" if cfg is not None else "n"} -> {"none" if spec is None else "some"}',
                       nontrivial=len(rels) > 1, sample={'releases': rels, 'configured': cfg, 'picked': impl})
@@ -312,52 +644,332 @@ class C17(fw.Check):
             if impl != spec:
                 self.violate(f'Latest resolved {impl} but newest generation of the highest release with any is {spec}',
                              {'kind': 'latest', 'releases': rels, 'configured': cfg}, 'latest-pick-wrong')
-        # refresh: a generation committed between requests is picked up after the refresh interval
-        for trial in range(self.n(3, 12)):
-            content = {'p': {'1': [1], '2': []}}
-            double = Double(content)
-            directory = asset.Directory(double)
-            strategy = application.Latest('p', refresh=0.05)
-            first = _ident(strategy.select(directory, None, None))
-            with double.lock:
-                if trial % 2:
-                    content['p']['2'] = [1]
-                    want = ('p', '2', 1)
-                else:
-                    content['p']['1'] = [1, 2]
-                    want = ('p', '1', 2)
-            deadline = time.time() + 10
-            got = first
-            while time.time() < deadline:
-                got = _ident(strategy.select(directory, None, None))
-                if got == want:
-                    break
-                time.sleep(0.02)
-            self.case(('refresh', trial), 'latest refresh', nontrivial=True)
-            if first != ('p', '1', 1):
-                self.violate(f'Latest first pick {first}', {'kind': 'latest-refresh', 'trial': trial}, 'latest-pick-wrong')
-            if got != want:
-                self.violate(f'Latest still serves {got} 10 s after {want} was committed (refresh=0.05 s)',
-                             {'kind': 'latest-refresh', 'trial': trial}, 'latest-refresh-stale')
-        # explicit: constant
-        for _ in range(self.n(20, 100)):
-            gens = sorted(self.rng.sample(range(1, 9), 3))
-            directory = asset.Directory(Double({'p': {'1': gens, '2': [1]}}))
-            g = self.rng.choice(gens)
-            strategy = application.Explicit('p', '1', g)
-            got = {_ident(strategy.select(directory, None, None)) for _ in range(5)}
-            self.case(('explicit', tuple(gens), g), 'explicit', nontrivial=False)
-            if got != {('p', '1', g)}:
-                self.violate(f'Explicit returned {got} for configured generation {g}',
-                             {'kind': 'explicit', 'gens': gens, 'g': g}, 'explicit-not-constant')
+
+    def _gen_history(self):
+        """(cfg, rels0, ops): every select is embedded as tick, select, tick (the model's ticks are the points at which
+        the real refresher has been given time)."""
+        rng = self.rng
+        idx = sorted(rng.sample(range(1, len(VERSIONS) - 1), rng.randint(1, 3)))
+        rels0 = [[r, list(range(1, rng.choice([0, 1, 1, 2]) + 1))] for r in idx]
+        mode = rng.choice(['none', 'none', 'cfg', 'cfg', 'cfg', 'cfg-empty', 'cfg-unpublished'])
+        if mode == 'none':
+            cfg = None
+        elif mode == 'cfg':
+            cfg = rng.choice(idx)
+            entry = next(e for e in rels0 if e[0] == cfg)
+            entry[1] = entry[1] or [1]
+        elif mode == 'cfg-empty':
+            cfg = rng.choice(idx)
+            next(e for e in rels0 if e[0] == cfg)[1] = []
+        else:
+            cfg = rng.choice([r for r in range(len(VERSIONS)) if r not in idx])
+        ops = []
+
+        def known():
+            rels = [[r, list(gs)] for r, gs in rels0]
+            for op in ops:
+                if op != 'tick' and op[0] in ('publish', 'commit'):
+                    apply_registry_op(rels, op)
+            return rels
+
+        for _ in range(rng.randint(3, 7)):
+            what = rng.choice(['select', 'select', 'select-nouse', 'commit-served', 'commit-served', 'commit-higher',
+                               'commit-other', 'publish', 'tick'])
+            rels = known()
+            served = spec_latest(rels, cfg)
+            top = max(r for r, _ in rels)
+            if what == 'select':
+                ops += ['tick', ['select', True], 'tick']
+            elif what == 'select-nouse':
+                ops += ['tick', ['select', False], 'tick']
+            elif what == 'commit-served':
+                ops.append(['commit', cfg if cfg is not None else (served[0] if served else top)])
+            elif what == 'commit-higher':
+                base = cfg if cfg is not None else (served[0] if served else top)
+                higher = [r for r in range(base + 1, len(VERSIONS))]
+                ops.append(['commit', rng.choice(higher)] if higher else 'tick')
+            elif what == 'commit-other':
+                ops.append(['commit', rng.randrange(len(VERSIONS))])
+            elif what == 'publish':
+                ops.append(['publish', rng.randrange(len(VERSIONS))])
+            else:
+                ops.append('tick')
+        ops += ['tick', ['select', True], 'tick']
+        if rng.random() < 0.7:  # and once more after a further commit to what is being served
+            rels = known()
+            served = spec_latest(rels, cfg)
+            ops += [['commit', cfg if cfg is not None else (served[0] if served else rels[-1][0])], 'tick', ['select', True]]
+        return cfg, rels0, ops
+
+    def _pool_map(self, jobs):
+        if self._pool is None:
+            import forml.application  # noqa: F401 pylint: disable=unused-import,import-outside-toplevel
+            from forml.provider.registry.filesystem import posix  # noqa: F401 pylint: disable=unused-import
+
+            self._pool = multiprocessing.get_context('fork').Pool(min(8, os.cpu_count() or 2), maxtasksperchild=40)
+        return self._pool.map(drive_history, jobs, chunksize=1)
+
+    def _close_pool(self):
+        if self._pool is not None:
+            self._pool.terminate()
+            self._pool.join()
+            self._pool = None
+
+    @staticmethod
+    def _model_history(survive, cfg, rels0, ops):
+        return sexp.dumps(['lhist', survive, cfg, rels0, ops])
+
+    def _judge_history(self, cfg, rels0, ops, model_obs, result):
+        """Compare one driven history with the model and evaluate the property on it.
+        Returns (divergence or None, [(what, signature, detail)])."""
+        shaped = f2_shaped(cfg, rels0, ops)
+        rels = [[r, list(gs)] for r, gs in rels0]
+        div, found = None, []
+        filled = False
+        outlived = 0
+        for i, (op, got) in enumerate(zip(ops, result['obs'])):
+            if op == 'tick':
+                continue
+            if op[0] in ('publish', 'commit'):
+                apply_registry_op(rels, op)
+                continue
+            use = bool(op[1])
+            mod = model_obs[i]
+            if got[0] == 'timeout':
+                continue  # reported as data
+            spec = spec_latest(rels, cfg)
+            first = not filled
+            if cfg is not None or got[0] != 'err':  # select itself only raises when nothing is configured and available
+                filled = True
+            if not use:
+                if all(got[:1] != m[:1] for m in mod) and div is None:
+                    div = ('Latest.select over a history', i, got, mod)
+                if got[0] == 'err' and (spec is not None or cfg is not None) and got[1] not in ('empty', 'invalid'):
+                    found.append((f'Latest.select raised {got[1]} at step {i}', 'latest-select-fails', {'step': i}))
+                continue
+            if got not in mod and div is None:
+                div = ('Latest over a history', i, got, mod)
+            if shaped and got != mod[0]:
+                outlived += 1  # the refresher's first round came after the first commit: timing, not behaviour
+            if spec is None:
+                if got[0] == 'served':
+                    found.append((f'Latest serves {got[1:]} although no generation is available at step {i}',
+                                  'latest-pick-wrong', {'step': i}))
+                continue
+            if got == ['served'] + spec:
+                continue
+            if got[0] == 'err':
+                sig = 'latest-select-fails'
+                what = f'Latest raised {got[1]} at step {i} although {spec} is available'
+            elif first:
+                sig = 'latest-pick-wrong'
+                what = f'Latest first resolved {got[1:]} but the newest generation of the {"configured" if cfg is not None else "highest"} release is {spec}'
+            else:
+                sig = SIG_F2 if shaped else 'latest-refresh-stale'
+                need = result.get('patience', PATIENCE['full'])
+                what = (f'Latest still serves {got[1:]} although {spec} had been committed and the refresher (refresh='
+                        f'{REFRESH}s) was given > {need[0]} intervals / {need[1]}s')
+            found.append((what, sig, {'step': i, 'served': got, 'newest': spec}))
+            break
+        return div, found, outlived
+
+    def _run_histories(self, cases, patience='full', blind=False):
+        """Model observations and the driven real history per case; `blind`: the real run polls for the spec value only
+        (not told what the model predicts)."""
+        # the model is run as the code is (a failing refresh round ends the refresher) and as repaired (survive): they
+        # differ only where the configured release is empty at first use, and there the real refresher's first round
+        # races with the first commit - either prediction is accepted, the oracle judges against the spec alone
+        lines = [self._model_history(sv, *c) for c in cases for sv in (False, True)]
+        answers = [sexp.num(sexp.loads(a)) for a in self.model(lines)]
+        jobs, mobs = [], []
+        for k, (cfg, rels0, ops) in enumerate(cases):
+            asis, repaired = answers[2 * k], answers[2 * k + 1]
+            if asis[0] != 'ok' or repaired[0] != 'ok':
+                raise fw.MachineryError(f'model rejected history {lines[2 * k]}: {asis} {repaired}')
+            if asis != repaired and not f2_shaped(cfg, rels0, ops):
+                raise fw.MachineryError(f'model variants differ on a history of another shape: {lines[2 * k]}')
+            both = [[a] if a == b else [a, b] for a, b in zip(asis[1], repaired[1])]
+            mobs.append(both)
+            jobs.append({'kind': 'latest', 'cfg': cfg, 'rels0': rels0, 'ops': ops, 'expect': None if blind else both,
+                         'patience': patience})
+        results = self._pool_map(jobs)
+        agg = self.extra['latest_refresh_waits']
+        for r in results:
+            agg['histories'] += 1
+            agg['polls'] += r['waits']['polls']
+            agg['max_wait_s'] = max(agg['max_wait_s'], r['waits']['max_wait_s'])
+            agg['patience_exhausted'] += r['waits']['patience_exhausted']
+            agg['hard_timeouts'] += r['waits']['hard_timeouts']
+        return list(zip(mobs, results))
+
+    def _shrink_history(self, cfg, rels0, ops, sig):
+        """Fewer operations / releases with a violation of the same signature on the real code (parallel rounds)."""
+        best = (cfg, rels0, ops)
+        for _ in range(4):
+            cfg, rels0, ops = best
+            cands = []
+            for i in range(len(ops)):
+                cand = ops[:i] + ops[i + 1:]
+                if any(o != 'tick' and o[0] == 'select' and o[1] for o in cand):
+                    cands.append((cfg, rels0, cand))
+            for i in range(len(rels0)):
+                if rels0[i][0] != cfg and len(rels0) > 1:
+                    cands.append((cfg, rels0[:i] + rels0[i + 1:], ops))
+            for i in range(len(rels0)):
+                if len(rels0[i][1]) > (1 if rels0[i][0] == cfg else 0):
+                    cands.append((cfg, rels0[:i] + [[rels0[i][0], rels0[i][1][:-1]]] + rels0[i + 1:], ops))
+            cands = cands[:16]
+            if not cands:
+                break
+            hit = None
+            for cand, (mobs, res) in zip(cands, self._run_histories(cands, patience='short')):
+                _, found, _ = self._judge_history(*cand, mobs, res)
+                if found and found[0][1] == sig and (hit is None or len(cand[2]) + len(cand[1]) < len(hit[0][2]) + len(hit[0][1])):
+                    hit = (cand, found[0])
+            if hit is None:
+                break
+            best = hit[0]
+        return best
+
+    def _latest_histories(self, count, corpus=True):
+        cases = []
+        if corpus:
+            cases += [
+                (None, [[1, [1]], [2, []]], ['tick', ['select', True], 'tick', ['commit', 2], 'tick', ['select', True]]),
+                (None, [[1, [1]], [2, []]], ['tick', ['select', True], 'tick', ['commit', 1], 'tick', ['select', True]]),
+                (1, [[1, [1]], [2, [1]]], ['tick', ['select', True], 'tick', ['commit', 1], 'tick', ['select', True],
+                                          ['commit', 2], 'tick', ['select', True]]),
+                (1, [[1, [1]]], ['tick', ['select', False], 'tick', ['commit', 1], 'tick', ['select', True], ['commit', 1],
+                                 'tick', ['select', True]]),
+                (None, [[1, [1, 2]]], ['tick', ['select', True], 'tick', ['publish', 3], ['commit', 3], 'tick', ['select', True],
+                                      ['commit', 1], 'tick', ['select', True]]),
+                (None, [[2, []]], ['tick', ['select', True], 'tick', ['commit', 2], 'tick', ['select', True]]),
+            ]
+        for _ in range(count):
+            cases.append(self._gen_history())
+        outlived = 0
+        shrunk = 0
+
+        def driven():
+            """chunk-wise: once the tree under test is known to break the property the remaining histories are driven with
+            the short patience, and after enough failing inputs not at all (bounded run time on a broken tree)"""
+            for at in range(0, len(cases), 32):
+                fresh = [v for v in self.violations if v.signature.startswith('latest-') and v.signature != SIG_F2]
+                if len(fresh) >= 6:
+                    self.notes.append(f'{len(cases) - at} further histories not driven: {len(fresh)} failing inputs found already')
+                    return
+                chunk = cases[at:at + 32]
+                yield from zip(chunk, self._run_histories(chunk, patience='short' if fresh else 'full'))
+
+        for (cfg, rels0, ops), (mobs, res) in driven():
+            shaped = f2_shaped(cfg, rels0, ops)
+            nsel = sum(1 for o in ops if o != 'tick' and o[0] == 'select')
+            ncommit = sum(1 for o in ops if o != 'tick' and o[0] == 'commit')
+            cfgkind = 'none' if cfg is None else 'empty/unpublished-at-first-use' if shaped else 'configured'
+            self.case(('lhist', cfg, repr(rels0), repr(ops)), f'latest history cfg={cfgkind}', nontrivial=nsel > 1 and ncommit > 0,
+                      sample={'configured': cfg, 'releases': rels0, 'ops': ops, 'observed': res['obs']})
+            div, found, out = self._judge_history(cfg, rels0, ops, mobs, res)
+            outlived += out
+            witness = {'kind': 'latest-history', 'configured': cfg, 'releases': rels0, 'ops': ops}
+            if div is not None:
+                self.diverge(div[0], dict(witness, step=div[1]), div[2], div[3])
+            for what, sig, detail in found:
+                if sig not in (SIG_F2,) and shrunk < 2 and not any(v.signature == sig for v in self.violations):
+                    shrunk += 1
+                    scfg, srels, sops = self._shrink_history(cfg, rels0, ops, sig)
+                    (smobs, sres), = self._run_histories([(scfg, srels, sops)])
+                    _, again, _ = self._judge_history(scfg, srels, sops, smobs, sres)
+                    if again and again[0][1] == sig:
+                        what, _, detail = again[0]
+                        witness = {'kind': 'latest-history', 'configured': scfg, 'releases': srels, 'ops': sops,
+                                   'versions': VERSIONS, 'observed': sres['obs']}
+                self.violate(what, witness, sig, detail)
+        if outlived:
+            self.notes.append(f'{outlived} observation(s) fresher than the model predicted on histories where the configured '
+                              'release is empty at first use (the refresher met the release only after its first commit)')
+
+    def _explicit(self):
+        cases = []
+        for _ in range(self.n(20, 120)):
+            idx = sorted(self.rng.sample(range(len(VERSIONS)), self.rng.randint(1, 3)))
+            rels0 = [[r, list(range(1, self.rng.randint(0, 3) + 1))] for r in idx]
+            r = self.rng.choice(idx + [self.rng.randrange(len(VERSIONS))])
+            g = self.rng.randint(1, 4)
+            ops = []
+            for _ in range(self.rng.randint(2, 7)):
+                ops.append(self.rng.choice(['select', 'select', ['commit', r], ['commit', self.rng.randrange(len(VERSIONS))],
+                                            ['publish', self.rng.randrange(len(VERSIONS))]]))
+            ops.append('select')
+            cases.append((r, g, rels0, ops))
+        answers = [sexp.num(sexp.loads(a)) for a in self.model([sexp.dumps(['ehist', r, g, rels0, ops])
+                                                                   for r, g, rels0, ops in cases])]
+        results = self._pool_map([{'kind': 'explicit', 'cfg': [r, g], 'rels0': rels0, 'ops': ops} for r, g, rels0, ops in cases])
+        for (r, g, rels0, ops), m, res in zip(cases, answers, results):
+            self.case(('explicit', r, g, repr(rels0), repr(ops)), 'explicit history', nontrivial=len(ops) > 2,
+                      sample=None)
+            if m[0] != 'ok' or m[1] != res['obs']:
+                self.diverge('Explicit over a history', {'release': r, 'generation': g, 'releases': rels0, 'ops': ops},
+                             res['obs'], m)
+            wrong = [o for o in res['obs'] if o[0] == 'served' and o[1:] != [r, g]]
+            exists = g in dict((x, gs) for x, gs in res['final']).get(r, [])
+            if wrong or (exists and res['obs'][-1] != ['served', r, g]):
+                self.violate(f'Explicit({VERSIONS[r]}, {g}) returned {wrong or res["obs"][-1]}',
+                             {'kind': 'explicit-history', 'release': r, 'generation': g, 'releases': rels0, 'ops': ops},
+                             'explicit-not-constant')
+
+    def _insteq(self):
+        """`asset.Instance.__eq__` / `__hash__` (what `Latest._refresh` decides on) against the model."""
+        from forml.io import asset
+
+        Double = _registry_double()
+        cases = []
+        for _ in range(self.n(150, 1500)):
+            idx = sorted(self.rng.sample(range(len(VERSIONS)), self.rng.randint(1, 3)))
+            rels = [[r, sorted(self.rng.sample(range(1, 5), self.rng.choice([0, 1, 2, 3])))] for r in idx]
+
+            def inst():
+                r = self.rng.choice(idx + idx + [self.rng.randrange(len(VERSIONS))])
+                gs = dict((x, g) for x, g in rels).get(r) or [1]
+                return [self.rng.choice([0, 0, 0, 1]), r, self.rng.choice([None, self.rng.choice(gs), self.rng.choice(gs),
+                                                                           self.rng.randint(1, 4)])]
+
+            a = inst()
+            b = self.rng.choice([inst(), [a[0], a[1], self.rng.choice([None, a[2]])], [a[0], self.rng.choice(idx), a[2]]])
+            cases.append((rels, a, b))
+        answers = [sexp.num(sexp.loads(x)) for x in self.model([sexp.dumps(['insteq', rels, a, b]) for rels, a, b in cases])]
+        for (rels, a, b), m in zip(cases, answers):
+            content = {VERSIONS[r]: list(gs) for r, gs in rels}
+            directory = asset.Directory(Double({'p': dict(content), 'q': dict(content)}))
+            ia, ib = (asset.Instance(project='pq'[p], release=VERSIONS[r], generation=g, registry=directory) for p, r, g in (a, b))
+            try:
+                verdict = ia == ib
+                impl = ['ok', 'true' if verdict else 'false']
+                if verdict:  # equal instances hash alike (their keys are resolved by now)
+                    impl.append('true' if hash(ia) == hash(ib) else 'false')
+            except Exception as exc:  # pylint: disable=broad-except
+                impl = _errkind(exc)
+            self.case(('insteq', repr(rels), tuple(a), tuple(b)), 'instance == ' + (impl[1] if impl[0] == 'ok' else 'raises'),
+                      nontrivial=a != b)
+            if m[0] == 'ok' and m[1] == 'false':
+                m = m[:2]  # hashes of unequal instances are unconstrained
+            if impl != m:
+                self.diverge('Instance.__eq__/__hash__', {'releases': rels, 'a': a, 'b': b}, impl, m)
 
     def correspondence(self):
+        try:
+            # Latest histories first: the worker processes are forked before this process has any selector threads
+            self._latest_histories(self.n(70, 700))
+            self._explicit()
+        finally:
+            self._close_pool()
         self._abtest()
-        self._latest()
+        self._fdiv()
+        self._latest_static()
+        self._insteq()
 
     def search(self, reason):
         # widen: more requests on the diverging weight vectors and their neighbours, oracle on the real code
-        seeds = [d.case for d in self.divergences if isinstance(d.case, dict) and 'targets' in d.case]
+        seeds = [d.case for d in self.divergences if isinstance(d.case, dict) and 'targets' in d.case and 'n' in d.case]
         tried = set()
         for c in seeds[:20]:
             ts, d = c['targets'], c.get('den', 1)
@@ -367,26 +979,46 @@ class C17(fw.Check):
                 if key in tried or len(tried) > 400:
                     continue
                 tried.add(key)
-                res, targets = self._run_abtest(cand, d, 600)
-                if targets is None:
-                    continue
-                for what, sig, detail in self._oracle_abtest(res[0], res[1], targets):
-                    self.violate(what, {'kind': 'abtest', 'targets': cand, 'den': d, 'n': detail['n']}, sig, detail)
+                values = [None if t is None else (t if d == 1 else t / d) for t in cand]
+                self._report_abtest('abtest', cand, d, values, 600, self._check_values(values, 600))
         self.notes.append(f'failing-input search ({reason}): {len(tried)} neighbouring weight vectors x 600 requests')
+        if any(not (isinstance(d.case, dict) and 'targets' in d.case) for d in self.divergences) and not self.violations:
+            # Latest / Instance / Explicit diverged: more and longer registry histories on the real code
+            try:
+                self._latest_histories(self.n(150, 600), corpus=False)
+            finally:
+                self._close_pool()
+            self.notes.append(f'failing-input search ({reason}): further registry histories against Latest')
 
     def replay_finding(self, entry):
         w = entry['witness']
         if w.get('kind') in ('abtest', 'abtest-float'):
             if w['kind'] == 'abtest':
-                res, targets = self._run_abtest(w['targets'], w.get('den', 1), w['n'])
+                d = w.get('den', 1)
+                values = [None if t is None else (t if d == 1 else t / d) for t in w['targets']]
             else:
-                res, targets = self._run_abtest_float(w['targets'], w['n'])
-            if targets is None:
+                values = w['targets']
+            res, _ = self._run_abtest_values(values, w['n'])
+            if res[0] == 'error':
                 return fw.Violation(f'ABTest constructor raised {res}', w, 'abtest-ctor')
-            for what, sig, detail in self._oracle_abtest(res[0], res[1], targets):
+            for what, sig, detail in self._oracle_abtest(doc_shares([None if v is None else F(v) for v in values]), res[1]):
+                return fw.Violation(what, w, sig, detail)
+            return None
+        if w.get('kind') == 'latest-history':
+            cfg, rels0, ops = w['configured'], w['releases'], w['ops']
+            try:
+                (mobs, res), = self._run_histories([(cfg, rels0, ops)], blind=True)
+            finally:
+                self._close_pool()
+            _, found, _ = self._judge_history(cfg, rels0, ops, mobs, res)
+            for what, sig, detail in found:
                 return fw.Violation(what, w, sig, detail)
             return None
         return None
+
+
+F2_WITNESS = (1, [[1, []]], ['tick', ['select', False], 'tick', ['commit', 1], 'tick', ['select', True], ['commit', 1], 'tick',
+                             ['select', True]])
 
 
 if __name__ == '__main__':
